@@ -127,19 +127,19 @@ func valueSources(c *Ctx, ge *GuardEngine, rule string, only map[string]bool) {
 	okSP := "ok:" + res + ".Resolution.(types.V2StorageProof) is true"
 	okExp := "ok:" + res + ".Resolution.(types.V2FileContractExpiration) is true"
 	rows := []createRow{
-		{id: "v1-output", entry: AT, id0: "call (*types.Transaction).SiacoinOutputID(%T1%, idx)", val: "%T1%.SiacoinOutputs[*]"},
-		{id: "v2-output", entry: A2T, id0: "call (*types.V2Transaction).SiacoinOutputID(%T2%, call (*types.V2Transaction).ID(%T2%), idx)", val: "%T2%.SiacoinOutputs[*]"},
+		{id: "v1-output", entry: AT, id0: "call (types.Transaction).SiacoinOutputID(%T1%, idx)", val: "%T1%.SiacoinOutputs[*]"},
+		{id: "v2-output", entry: A2T, id0: "call (types.V2Transaction).SiacoinOutputID(%T2%, call (types.V2Transaction).ID(%T2%), idx)", val: "%T2%.SiacoinOutputs[*]"},
 		{id: "v1-claim", entry: AT, id0: "call (types.SiafundOutputID).ClaimOutputID(%T1%.SiafundInputs[*].ParentID)", val: claim("%MS%.siafundTaxRevenue", sfe+".ClaimStart", sfe+".SiafundOutput.Value"), immature: true},
 		{id: "v2-claim", entry: A2T, id0: "call (types.SiafundOutputID).V2ClaimOutputID(%T2%.SiafundInputs[*].Parent.ID)", val: claim("%MS%.siafundTaxRevenue", "%T2%.SiafundInputs[*].Parent.ClaimStart", "%T2%.SiafundInputs[*].Parent.SiafundOutput.Value"), immature: true},
 		{id: "v1-storage-proof-valid-outputs", entry: AT, id0: "call (types.FileContractID).ValidOutputID(%T1%.StorageProofs[*].ParentID, idx)", val: fceSP + ".FileContract.ValidProofOutputs[*]", immature: true},
 		{id: "v1-expiry-missed-outputs", entry: MAB, id0: "call (types.FileContractID).MissedOutputID({consensus.V1BlockSupplement}.ExpiringFileContracts[*].ID, idx)", val: "{consensus.V1BlockSupplement}.ExpiringFileContracts[*].FileContract.MissedProofOutputs[*]", immature: true,
-			ctx: []string{"call (*consensus.MidState).isSpent(…ExpiringFileContracts[*].ID) is false"}},
+			ctx: []string{"call (consensus.MidState).isSpent(…ExpiringFileContracts[*].ID) is false"}},
 		{id: "v2-resolution-renter", entry: A2T, id0: "call (types.FileContractID).V2RenterOutputID(" + res + ".Parent.ID)", val: "phi(…)", immature: true,
 			alts: []Alt{{ren + ".FinalRenterOutput", []string{okRen}}, {res + ".Parent.V2FileContract.RenterOutput", []string{okSP}}, {res + ".Parent.V2FileContract.RenterOutput", []string{okExp + "|default"}}}},
 		{id: "v2-resolution-host", entry: A2T, id0: "call (types.FileContractID).V2HostOutputID(" + res + ".Parent.ID)", val: "phi(…)", immature: true,
 			alts: []Alt{{ren + ".FinalHostOutput", []string{okRen}}, {res + ".Parent.V2FileContract.HostOutput", []string{okSP}}, {"call (types.V2FileContract).MissedHostOutput(" + res + ".Parent.V2FileContract)", []string{okExp + "|default"}}}},
-		{id: "miner-payouts", entry: MAB, id0: "call (types.BlockID).MinerOutputID(call (*types.Block).ID({types.Block}), idx)", val: "{types.Block}.MinerPayouts[*]", immature: true},
-		{id: "foundation-subsidy", entry: MAB, id0: "call (types.BlockID).FoundationOutputID(call (*types.Block).ID({types.Block}))", val: "call (consensus.State).FoundationSubsidy(%ST%)#0", immature: true,
+		{id: "miner-payouts", entry: MAB, id0: "call (types.BlockID).MinerOutputID(call (types.Block).ID({types.Block}), idx)", val: "{types.Block}.MinerPayouts[*]", immature: true},
+		{id: "foundation-subsidy", entry: MAB, id0: "call (types.BlockID).FoundationOutputID(call (types.Block).ID({types.Block}))", val: "call (consensus.State).FoundationSubsidy(%ST%)#0", immature: true,
 			ctx: []string{"call (consensus.State).FoundationSubsidy(%ST%)#1 is true"}},
 	}
 	cache := map[string][]CallFact{}
